@@ -115,7 +115,7 @@ def case_strategy(draw):
     if bk_int:
         x = [v + 0.37 if v == min(x) else (v - 0.29 if v == max(x) else v) for v in x] if span >= 10 else x
     return dict(x=x, nord=nord, opt=opt, kw=kw, bk_int=bk_int, ev=ev, coeff_seed=[draw(uf) for _ in range(8)], sort_eval=draw(st.sampled_from([False, False, True])),
-                ev_dtype=draw(st.sampled_from(['f8', 'f8', 'f4', 'i8'])), many=draw(st.integers(0, 400)) == 0)
+                ev_dtype=draw(st.sampled_from(['f8', 'f8', 'f4', 'i8', 'u2', 'i4', 'u8'])), many=draw(st.integers(0, 400)) == 0)
 
 
 def body(case):
@@ -172,9 +172,14 @@ def body(case):
     if case['sort_eval']:
         ev = np.sort(ev)
     f4 = case.get('ev_dtype', 'f8') == 'f4'
-    if case.get('ev_dtype') == 'i8':
-        # whole-number evaluation points held in an integer array (pixel indices)
+    if case.get('ev_dtype', 'f8')[0] in 'iu':
+        # whole-number evaluation points held in an integer array (pixel indices: int64, int32, unsigned where none is negative)
         evi = np.round(ev).astype('i8')
+        edt = case['ev_dtype']
+        if edt[0] == 'u' and (evi.min() < 0 or evi.max() > np.iinfo(edt).max):
+            edt = 'i8'
+        evi = evi.astype(edt)
+        note_label('eval-dtype:' + edt)
         ev = evi.astype('f8')
         y, m = call(b.value, evi.copy())
     elif f4:
